@@ -69,7 +69,8 @@ def generate(streams, tier):
             q["order"] = "default"
         ops.append(q)
     # one engine object for the whole history (a user keeps the engine and calibrates it between questions) or a fresh one per question
-    return {"kind": kind, "world": world, "config": config, "ops": ops, "shared_engines": rw.random() < 0.5}
+    return {"kind": kind, "world": world, "config": config, "ops": ops, "shared_engines": rw.random() < 0.5,
+            "backend": streams.s("config").choice(seams.BACKENDS)}
 
 
 def describe(case):
@@ -90,6 +91,15 @@ def execute(case, ctx):
         ref = RefJoint.from_factors(world["card"], world["factors"])
         build = lambda: build_mn(world, names, factor_order=case["config"]["factor_order"], edge_order=case["config"]["edge_order"])
     z = ref.partition()
+    vals = [x for t in world["tables"] for row in t for x in row] if kind == "bn" else [x for f in world["factors"] for x in f["values"]]
+    backend = seams.effective_backend(case.get("backend", "numpy"), vals)
+    seams.set_backend(backend)
+    ctx.backend = backend
+    if backend != "numpy":
+        ctx.fault("backend_config")
+    single = backend.endswith("float32")
+    if single:
+        ctx.probe("dtype_float32")
     model = build()
     ctx.fault("relabel")
     ctx.fault("insertion_permute")
@@ -117,6 +127,8 @@ def execute(case, ctx):
         if kind != "bn":
             virt = []
         if not q or ref.prob_evidence(ev, virt) <= 1e-12 * max(z, 1e-300):
+            continue
+        if single and (ref.prob_evidence(ev, virt) < 1e-5 * z or any(0 < x < 1e-3 for _, l in virt for x in l)):
             continue
         ctx.event(k, q, sorted(ev.items()), virt, op.get("order") if not isinstance(op.get("order"), list) else "explicit")
         ctx.fault("option_swarm")
@@ -167,7 +179,9 @@ def check_assignment(ctx, names, world, ref, res, q, ev, virt, what, row=None):
     post = ref.posterior(q, ev, virt)
     p = float(post[tuple(idx)])
     best = float(post.max())
-    if p < best - TOL - 1e-7 * best:
+    from ..refmodel import is_single
+
+    if p < best - TOL - (2e-3 if is_single() else 1e-7) * best:
         ctx.fail("maximiser", f"{PROP}:not_max:{what}", {"returned": idx, "p": p, "max": best, "argmax": [int(x) for x in np.unravel_index(int(post.argmax()), post.shape)],
                                                          "q": q, "ev": sorted(ev.items()), "row": row})
         return False
@@ -204,6 +218,7 @@ def _predict(case, ctx, op, model, names, ref):
         return
     finally:
         seams.reset_environment()
+        seams.set_backend(getattr(ctx, "backend", "numpy"))
     ctx.checked += 1
     if len(out) != len(rows):
         ctx.fail("keys", f"{PROP}:predict_rows", {"got": len(out), "want": len(rows)})
@@ -238,6 +253,10 @@ def shrink_candidates(case):
             c = copy.deepcopy(case)
             c["world"]["states"] = [None] * n
             yield c
+    if case.get("backend", "numpy") != "numpy":
+        c = copy.deepcopy(case)
+        c["backend"] = "numpy"
+        yield c
     if case.get("shared_engines"):
         c = copy.deepcopy(case)
         c["shared_engines"] = False
